@@ -192,6 +192,37 @@ theorem c15_path_edges_exist (ops : List Op) (u v c : Nat) :
   rw [hwf.containsEdge, hasCell_iff]
   exact List.mem_map.2 ⟨(u, v, c), hm, rfl⟩
 
+theorem path_head {s : DiGraph} {a b : Nat} {p : List Nat} {c : Nat} (h : Path s a b p c) : ∃ t, p = a :: t := by
+  cases h with
+  | single => exact ⟨[], rfl⟩
+  | cons _ _ => exact ⟨_, rfl⟩
+
+/-- every step of a real path — every pair of neighbours in the node sequence — is an edge of the graph -/
+theorem c15_path_steps_edges {s : DiGraph} {a b : Nat} {p : List Nat} {c : Nat} (h : Path s a b p c) :
+    ∀ u v, (u, v) ∈ p.zip p.tail → ∃ w, (u, v, w) ∈ s.edges := by
+  induction h with
+  | single a => intro u v hm; simp at hm
+  | cons he hp ih =>
+    intro u v hm
+    obtain ⟨t, ht⟩ := path_head hp
+    subst ht
+    simp only [List.tail_cons, List.zip_cons_cons, List.mem_cons, Prod.mk.injEq] at hm
+    rcases hm with ⟨rfl, rfl⟩ | hm
+    · exact ⟨_, he⟩
+    · exact ih u v (by simpa using hm)
+
+/-- **an accepted answer only walks along edges the API reports**: on every reachable graph, each pair of neighbours in a
+sequence the oracle accepts satisfies `contains_edge` -/
+theorem c15_accepted_steps_are_api_edges (ops : List Op) (a b : Nat) (p : List Nat) :
+    let g := (run .repaired init ops).1
+    judge (abs g) a b (some p) = true → ∀ u v, (u, v) ∈ p.zip p.tail → g.containsEdge u v = true := by
+  intro g hj u v hm
+  have hwf : Model.UGraph.WF g := C08.c08_reachable_wf ops
+  have hs : Spec.DiGraph.WF (abs g) := ⟨hwf.keysNodup, hwf.edgesLive, hwf.edgesOk.nodup⟩
+  obtain ⟨_, _, c, hp, _⟩ := (c15_judge_some_iff (abs g) hs a b p).1 hj
+  obtain ⟨w, hw⟩ := c15_path_steps_edges hp u v hm
+  exact c15_path_edges_exist ops u v w hw
+
 /-! ## non-vacuity: a graph with a cycle, a zero-weight edge, a tie and a self-loop -/
 example :
     let s : DiGraph := { nodes := [(0, 1), (1, 1), (2, 1), (3, 1), (5, 1)],
